@@ -112,8 +112,12 @@ func (g *Rng) e2eParams(id string, more bool) string {
 		return g.jsonObject(2)
 	}
 	switch g.Intn(8) {
-	case 0: // error reply
-		acts = append(acts, `["e",`+g.jsonString(g.Pick(ifaceNamePool)+".Err")+`,`+g.jsonObject(2)+`]`)
+	case 0: // error reply, with or without parameters
+		if g.Chance(1, 3) {
+			acts = append(acts, `["e",`+g.jsonString(g.Pick(ifaceNamePool)+".Err")+`]`)
+		} else {
+			acts = append(acts, `["e",`+g.jsonString(g.Pick(ifaceNamePool)+".Err")+`,`+g.jsonObject(2)+`]`)
+		}
 	case 1:
 		acts = append(acts, `["s",`+g.jsonString(g.Pick([]string{"i", "m", "n", "p"}))+`,`+g.jsonString(g.randStringValid())+`]`)
 	case 2:
